@@ -14,6 +14,8 @@ ObsTrace(op, args, ret, anyret, post) ==
     \* E: return value not claimed.  A differing return value does not stop the validation (the VALUE is what later
     \* steps depend on): it is printed and reported by the check as a violation of its own.
     /\ (anyret \/ ret = ev.ret \/ PrintT(<<"RET_MISMATCH", l>>))
+    \* Conv_CmpWithPtrCountBeyondLength: where the return value of (n)cmp_with_ptr is E, it is EQUAL or LESS, nothing else
+    /\ ((anyret /\ op \in {"cmp_with_ptr", "ncmp_with_ptr"}) => (ev.ret \in {0, 0 - 1} \/ PrintT(<<"RET_MISMATCH", l>>)))
     /\ post.a = (IF ev.ca THEN ev.pa ELSE Pre.a)
     /\ post.b = (IF ev.cb THEN ev.pb ELSE Pre.b)
 
